@@ -594,6 +594,29 @@ fn vp_native_body_delivered_as_it_arrives() {
         assert!(t0.elapsed() < std::time::Duration::from_millis(1000), "reading what had arrived took {:?} ({})", t0.elapsed(), ctx);
         cases += 1;
     } } }
+    // responses without a body: sending returns at the blank line and the empty body is read without waiting, the server holding the connection open
+    for (kind, head) in [("Content-Length: 0", "HTTP/1.1 200 OK\r\nContent-Length: 0\r\n\r\n"), ("204", "HTTP/1.1 204 No Content\r\n\r\n"), ("304", "HTTP/1.1 304 Not Modified\r\nContent-Length: 10\r\n\r\n"),
+                         ("HEAD", "HTTP/1.1 200 OK\r\nContent-Length: 10\r\n\r\n"), ("HEAD chunked", "HTTP/1.1 200 OK\r\nTransfer-Encoding: chunked\r\n\r\n")] {
+        let l = TcpListener::bind("127.0.0.1:0").unwrap();
+        let port = l.local_addr().unwrap().port();
+        std::thread::spawn(move || {
+            if let Ok((mut s, _)) = l.accept() {
+                let mut r = BufReader::new(s.try_clone().unwrap());
+                loop { let mut h = String::new(); if r.read_line(&mut h).unwrap_or(0) == 0 || h == "\r\n" { break; } }
+                s.write_all(head.as_bytes()).ok(); s.flush().ok();
+                std::thread::sleep(std::time::Duration::from_millis(2500));
+            }
+        });
+        let t0 = std::time::Instant::now();
+        let url = format!("http://127.0.0.1:{}/", port);
+        let rb = if kind.starts_with("HEAD") { crate::head(&url) } else { crate::get(&url) };
+        let resp = rb.read_timeout(std::time::Duration::from_millis(1200)).send()
+            .unwrap_or_else(|e| panic!("send() must return once the head of a body-less response ({}) has arrived: {} after {:?}", kind, e, t0.elapsed()));
+        let body = resp.bytes().unwrap_or_else(|e| panic!("the empty body of a {} response must be readable at once: {}", kind, e));
+        assert!(body.is_empty(), "{}", kind);
+        assert!(t0.elapsed() < std::time::Duration::from_millis(1000), "a body-less response ({}) took {:?}", kind, t0.elapsed());
+        cases += 1;
+    }
     println!("VP-NATIVE body_delivered_as_it_arrives cases={}", cases);
 }
 
